@@ -64,7 +64,7 @@ impl Check for C17 {
             .into()
     }
     fn budget(t: Tier) -> usize {
-        t.pick(60_000, 1_500_000)
+        t.pick(60_000, 6_000_000)
     }
     fn gen(s: &mut Src, _t: Tier) -> Case {
         let program = small_program(s);
